@@ -16,6 +16,7 @@ CHECKS = {
  "C07": ("bounded symbolic execution of pubsub.OnPublish, OnLastWill and OnSubscribe with the real Authorize/ParseChannel/Channel.TTL/Last/Window (strconv from SSA): permission mask, retain/will flags and option values symbolic (decimal digits, plus the values at the 2^31/2^32 boundaries), storage as a recording stub", "3 C07"),
  "C08": ("bounded symbolic execution of broker.Conn.Close (with its recover), Process/onReceive/onConnect on a scripted socket, pubsub.Unsubscribe/OnLastWill, Counters.All and the trie: histories of subscriptions with arbitrary ssid words plus a link auto-subscription, a watched last will with a symbolic permission mask, and a real encoded session stream cut at every byte offset, ended by DISCONNECT or corrupted in one byte", "3 C08"),
  "C09": ("bounded symbolic execution with panic, allocation-size and termination obligations: broker.Conn.Process + Close on every client byte string up to the bound (real mqtt.DecodePacket, pubsub handlers, ParseChannel), Service.onPeerMessage on arbitrary decoded messages, message.readBytes and ID accessors on arbitrary bytes, event.decodeSubscription/decodeConnection on arbitrary keys, storage.SSD.lookup with arbitrary limits, survey.Surveyor.Send on arbitrary channels; every make with a symbolic size must stay within a stated bound", "3 C09"),
+ "C10": ("bounded symbolic execution with schedules as path forks: harness threads (two or three publishers encoding sequence-numbered PUBLISH packets, a flush thread, a subscription-churning connection) run the real listener.Conn.Write/enqueue/Flush/Len, mqtt.Publish.EncodeTo with its buffer pool, websocketTransport.Write, broker.Conn.onReceive/Send, pubsub.OnPublish/Publish and the trie under every schedule with at most the stated number of preemptions (scheduling points before every acquire-like synchronisation operation, justified by a happens-before race detector over the same runs), with payload bytes and every rate-limiter answer symbolic; the received byte stream is decoded independently: whole packets, per-publisher order, no loss or duplication; schedules are replayed natively through a generated scheduling-point instrumentation of the current source, races are confirmed with go test -race", "2.9 and 3 C10"),
  "C11": ("bounded symbolic execution of keygen.OnRequest/CreateKey/ExtendKey (Request.access/expires), broker.Service.Authorize(AllowExtend), Key.SetTarget/ValidateChannel and the extend guards of pubsub.OnSubscribe/OnUnsubscribe/OnPublish and link.OnRequest: every presented key (all 24 bytes' fields, license, clock symbolic), type letters, ttl and channel letters", "3 C11"),
  "C12": ("bounded symbolic execution of the real v2 (XSalsa20) and v3 (salted Salsa20) key ciphers (keystream uninterpreted, HSalsa20 from source), decode path, contract.Validate and broker.Service.Authorize: every XOR mask on the 24 cipher bytes of an issued key with symbolic fields, symbolic probe channel and permission; Authorize(altered) must imply Authorize(issued). v1/XTEA is outside (computational)", "3 C12"),
  "C13": ("bounded symbolic execution of Volatile.Merge, Durable.Merge and State.Merge: local state and incoming payload symbolic per key (every order of add/remove times, ties, zeros, missing keys); payloads queued through the gossip sender's pending.Merge(new) rule", "3 C13"),
@@ -25,7 +26,6 @@ CHECKS = {
  "C20": ("bounded symbolic execution of Xtea/Salsa/Shuffle EncryptKey/DecryptKey with every secret symbolic, the real base64 codec pair (encoding/base64 SSA + decodeKey), license V1 String/Parse and Parse on arbitrary byte strings; decided compositionally (codec bijection L1, cipher inversion L2)", "3 C20"),
 }
 NA = {
- "C10": "quantifies over goroutine schedules across net.Conn/bufio/sync; the SSA symbolic executor has no scheduler, so interleavings cannot be made solver variables (the sequential content is covered under C16/C17)",
  "C15": "durability across process death depends on badger's value log, the OS page cache and the file system at arbitrary kill instants; none of that can be encoded as SSA + SMT, and stubbing badger would assume the property",
 }
 PENDING = "check not built yet in this session (work in progress, see DESIGN.md section 8); not claimed"
